@@ -272,6 +272,11 @@ class Equalizer(object):
                 # Don't fail when could not kill
                 _logger.warning(u'Error while killing worker, {}'.format(str(ex)))
         self._compare_process = None
+        # The abandoned worker may have delivered its result just after we gave up waiting, and killing it may leave the
+        # locks of the queues it was using held for ever. The next worker gets fresh queues, so a late result is not
+        # mistaken for the result of the next recording and later recordings can still be played
+        self._compare_tasks = mp.Queue()
+        self._compare_results = mp.Queue()
         raise Exception("timeout while running recording playback and comparison")
 
     def _kill_compare_process(self):
